@@ -855,6 +855,9 @@ pub fn apply_model(pool: &mut Pool, op: &Op) -> Out {
 pub struct StepInfo {
     /// allocator requests issued while building a new value (before it is assigned to the slot)
     pub construct: Option<Counts>,
+    /// allocations/reallocations that reached the global allocator (not the crate's hooked calls)
+    /// on this thread during the crate call itself - temporaries the crate creates indirectly
+    pub foreign: Option<u64>,
     /// text produced by a float conversion
     pub float_text: Option<String>,
 }
@@ -888,7 +891,12 @@ fn tls_err(e: lean_string::ToLeanStringError) -> Out {
 
 /// Applies `op` to the real pool. Panics are caught and reported as `Out::Panic`.
 pub fn apply_real(pool: &mut Pool, op: &Op, info: &mut StepInfo) -> Out {
+    let g0 = crate::galloc::foreign();
     let r = catch_unwind(AssertUnwindSafe(|| apply_real_inner(pool, op, info)));
+    if !op.is_constructor() {
+        // (constructors measure around the crate call only: their inputs are built inside)
+        info.foreign = Some(crate::galloc::foreign().wrapping_sub(g0));
+    }
     match r {
         Ok(o) => o,
         Err(p) => Out::Panic(panic_msg(p)),
@@ -905,36 +913,57 @@ fn apply_real_inner(pool: &mut Pool, op: &Op, info: &mut StepInfo) -> Out {
     }
     // constructors: build first, measure, then assign
     if op.is_constructor() {
+        // inputs are prepared first; `meas!` brackets exactly the crate call
+        macro_rules! meas {
+            ($e:expr) => {{
+                let g0 = crate::galloc::foreign();
+                let v = $e;
+                info.foreign = Some(crate::galloc::foreign().wrapping_sub(g0));
+                v
+            }};
+        }
         let c0 = shim::counts();
         let built: Result<LeanString, Out> = match op {
-            New { .. } => Ok(LeanString::new()),
-            FromStr { s, .. } => Ok(LeanString::from(s.as_str())),
-            FromString { s, .. } => Ok(LeanString::from(owned_with_slack(s))),
-            FromStringRef { s, .. } => Ok(LeanString::from(s)),
-            FromBox { s, .. } => Ok(LeanString::from(s.clone().into_boxed_str())),
-            FromCowB { s, .. } => Ok(LeanString::from(Cow::Borrowed(s.as_str()))),
-            FromCowO { s, .. } => Ok(LeanString::from(Cow::<str>::Owned(owned_with_slack(s)))),
-            FromChar { c, .. } => Ok(LeanString::from(*c)),
-            Parse { s, .. } => s.parse::<LeanString>().map_err(|_| Out::Err),
-            FromStatic { id, .. } => Ok(LeanString::from_static_str(static_text(*id))),
+            New { .. } => Ok(meas!(LeanString::new())),
+            FromStr { s, .. } => Ok(meas!(LeanString::from(s.as_str()))),
+            FromString { s, .. } => {
+                let inp = owned_with_slack(s);
+                Ok(meas!(LeanString::from(inp)))
+            }
+            FromStringRef { s, .. } => Ok(meas!(LeanString::from(s))),
+            FromBox { s, .. } => {
+                let inp = s.clone().into_boxed_str();
+                Ok(meas!(LeanString::from(inp)))
+            }
+            FromCowB { s, .. } => Ok(meas!(LeanString::from(Cow::Borrowed(s.as_str())))),
+            FromCowO { s, .. } => {
+                let inp = owned_with_slack(s);
+                Ok(meas!(LeanString::from(Cow::<str>::Owned(inp))))
+            }
+            FromChar { c, .. } => Ok(meas!(LeanString::from(*c))),
+            Parse { s, .. } => meas!(s.parse::<LeanString>()).map_err(|_| Out::Err),
+            FromStatic { id, .. } => {
+                let st = static_text(*id);
+                Ok(meas!(LeanString::from_static_str(st)))
+            }
             WithCap { n, try_, .. } => {
                 if *try_ {
-                    LeanString::try_with_capacity(*n).map_err(|_| Out::Err)
+                    meas!(LeanString::try_with_capacity(*n)).map_err(|_| Out::Err)
                 } else {
-                    Ok(LeanString::with_capacity(*n))
+                    Ok(meas!(LeanString::with_capacity(*n)))
                 }
             }
             FromUtf8 { s, .. } => {
-                LeanString::from_utf8(s.as_bytes()).map_err(|e| Out::ErrOther(format!("Utf8Error: {e}")))
+                meas!(LeanString::from_utf8(s.as_bytes())).map_err(|e| Out::ErrOther(format!("Utf8Error: {e}")))
             }
-            FromUtf8Unchecked { s, .. } => Ok(unsafe { LeanString::from_utf8_unchecked(s.as_bytes()) }),
+            FromUtf8Unchecked { s, .. } => Ok(meas!(unsafe { LeanString::from_utf8_unchecked(s.as_bytes()) })),
             Utf8Lossy { b, .. } => Ok(LeanString::from_utf8_lossy(b)),
             Utf16 { u, .. } => LeanString::from_utf16(u).map_err(|_| Out::ErrOther("FromUtf16Error".into())),
             Utf16Lossy { u, .. } => Ok(LeanString::from_utf16_lossy(u)),
             Collect { kind, items, hint, .. } => Ok(collect_real(*kind, items, *hint, None)),
             CollectPanic { kind, items, k, .. } => Ok(collect_real(*kind, items, None, Some(*k))),
             ToLean { v, try_, .. } => {
-                let r = tls_real(v, *try_).map_err(tls_err);
+                let r = meas!(tls_real(v, *try_)).map_err(tls_err);
                 if let (Ok(ls), Tls::F64(_) | Tls::F32(_)) = (&r, v) {
                     info.float_text = Some(ls.as_str().to_string());
                 }
